@@ -48,6 +48,8 @@ BIG = 3 * 2 ** 30            # cost bump that drives the limiter's target to 0 (
 T_SOFT, T_RANGE = 1024, 2 ** 30          # throttle configuration: sleep = cost - T_SOFT seconds
 MSG = {1: 'alpha', 2: 'beta', 3: 'gamma é', 7: 'seven', 9: ''}
 MSG_IDS = {v: k for k, v in MSG.items()}
+# results that are falsy in Python: value ids 900.. (a reply must not depend on truthiness)
+FALSY = [None, 0, '', [], False, {}, 0.0]
 
 # outcome classes (first element of an outcome tuple)
 DISC = ('dv', 'de', 'du')                # ReplyAndDisconnect(value | error | unencodable)
@@ -100,12 +102,16 @@ def norm_case(case):
             items.append((k, o, 0 if o[0] == 'x' else 1 + pos.get(i, i)))
     else:
         items = [(k, tuple(o), d) for k, o, d in case['items']]
-    return {'cfg': norm_cfg(case.get('cfg')), 'items': items}
+    arr = list(case.get('arr') or [0] * len(items))
+    return {'cfg': norm_cfg(case.get('cfg')), 'items': items, 'arr': arr}
 
 
 def case_json(case):
     cfg = {k: v for k, v in case['cfg'].items() if DEFAULT_CFG.get(k) != v}
-    return {'cfg': cfg, 'items': [[k, list(o), d] for k, o, d in case['items']]}
+    out = {'cfg': cfg, 'items': [[k, list(o), d] for k, o, d in case['items']]}
+    if any(case['arr']):
+        out['arr'] = list(case['arr'])
+    return out
 
 
 def make_session_cls(mods, cfg):
@@ -154,7 +160,7 @@ def make_session_cls(mods, cfg):
                 return 'late'
             rec[1] = now()
             if kind == 'v':
-                return {'ok': o[1]}
+                return {'ok': o[1]} if o[1] < 900 else FALSY[o[1] - 900]
             if kind == 'u':
                 return unencodable(o[1])
             if kind == 'e':
@@ -252,42 +258,56 @@ def run_case(repo, case):
             rec = (rig.now, s.errors - err0, s.cost - cost0 - bw(), tr.is_closing(), s.hook_calls)
             if not snaps or snaps[-1][1:] != rec[1:]:
                 snaps.append(rec)
-        # ---- everything arrives at time 0
+        # ---- arrivals (at their instants; usually all at 0), pause / resume of the peer's reading
+        arr = case['arr']
+        marks = []
+
+        def feeder(i):
+            k, o, d = items[i]
+
+            def feed_batch():
+                batch = [wire_request(proto, names[j], j if items[j][0] == 'B' else None)
+                         for j in range(len(items)) if items[j][0] in ('B', 'M')]
+                rig.feed(json.dumps(batch).encode() + b'\n')
+
+            def feed_single():
+                if o[0] == 'x':
+                    # the limiter refuses entry: the session's cost is past its hard limit
+                    # while this request arrives
+                    s.bump_cost(BIG)
+                    rig.feed_json(wire_request(proto, names[i], None if k == 'N' else i))
+                    s.bump_cost(-BIG)
+                else:
+                    rig.feed_json(wire_request(proto, names[i], None if k == 'N' else i))
+            return feed_batch if k in ('B', 'M') else feed_single
         fed_batch = False
         for i, (k, o, d) in enumerate(items):
             if k in ('B', 'M'):
-                if not fed_batch:
-                    fed_batch = True
-                    batch = [wire_request(proto, names[j], j if items[j][0] == 'B' else None)
-                             for j in range(len(items)) if items[j][0] in ('B', 'M')]
-                    rig.feed(json.dumps(batch).encode() + b'\n')
-                continue
-            if o[0] == 'x':
-                # the limiter refuses entry: the session's cost is past its hard limit while
-                # this request arrives
-                s.bump_cost(BIG)
-                rig.feed_json(wire_request(proto, names[i], None if k == 'N' else i))
-                s.bump_cost(-BIG)
-            else:
-                rig.feed_json(wire_request(proto, names[i], None if k == 'N' else i))
+                if fed_batch:
+                    continue
+                fed_batch = True
+            marks.append((arr[i], feeder(i)))
+        horizon = max(arr, default=0) + P + 8 + (cfg['drain'] or 0)
+        if cfg['pause']:
+            marks += [(cfg['pause'][0], tr.env_pause), (cfg['pause'][1], tr.env_resume)]
+            horizon = max(horizon, cfg['pause'][1] + 8)
+        marks.sort(key=lambda m: m[0])
+
+        def run_marks():
+            while marks and marks[0][0] <= rig.now + 1e-9:
+                marks.pop(0)[1]()
+                rig.idle()
+        run_marks()
         snap()
         # ---- let virtual time pass, instant by instant
-        horizon = P + 8 + (cfg['drain'] or 0)
-        marks = []
-        if cfg['pause']:
-            marks = [(cfg['pause'][0], tr.env_pause), (cfg['pause'][1], tr.env_resume)]
-            horizon = max(horizon, cfg['pause'][1] + 8)
         for _ in range(10000):
             nt = rig.next_timer()
-            cand = [t for t in ([nt] if nt is not None else []) + [m[0] for m in marks]
+            cand = [t for t in ([nt] if nt is not None else []) + [m[0] for m in marks[:1]]
                     if t <= horizon]
             if not cand:
                 break
-            t = min(cand)
-            rig.advance_to(max(t, rig.now))
-            while marks and marks[0][0] <= rig.now:
-                marks.pop(0)[1]()
-                rig.idle()
+            rig.advance_to(max(min(cand), rig.now))
+            run_marks()
             snap()
         rig.advance_to(max(horizon, rig.now))
         snap()
@@ -311,12 +331,12 @@ def run_case(repo, case):
         if not closed:
             if cfg['throttle']:
                 s.bump_cost(-s.cost)        # leave the throttled range again
-            s.script['probe'] = (('v', 4242), 0)
+            s.script['probe'] = (('v', 424), 0)
             mark = len(tr.out)
             rig.feed_json(wire_request(proto, 'probe', 777777))
             rig.advance(1 + (cfg['drain'] or 0))
             got = [m for m in rig.written_lines(mark) if isinstance(m, dict) and m.get('id') == 777777]
-            probe = bool(got) and got[0].get('result') == {'ok': 4242}
+            probe = bool(got) and got[0].get('result') == {'ok': 424}
         pm = getattr(rig.proto, '_process_messages_task', None)
         return {'replies': singles, 'batches': batches, 'dup': dup, 'malformed': malformed,
                 'snaps': snaps, 'closed': closed, 'probe': probe, 'hook': s.hook_calls,
@@ -341,7 +361,8 @@ def ser_outcome(o):
 
 def model_line(cfg, case):
     c, items = case['cfg'], case['items']
-    its = [f'{items[i][0]} {i} {ser_outcome(items[i][1])} {items[i][2]}' for i in arrival_order(items)]
+    its = [f'{items[i][0]} {i} {ser_outcome(items[i][1])} {items[i][2]} {case["arr"][i]}'
+           for i in arrival_order(items)]
     return (f'repaired {cfg["internal"]} {cfg["busy"]} {cfg["excessive"]} {cfg["base"]} ; '
             f'{c["conc"]} {P} {c["throttle"]} ; ' + ' ; '.join(its))
 
@@ -372,6 +393,9 @@ def canon_reply(m):
         r = m['result']
         if isinstance(r, dict) and set(r) == {'ok'}:
             return f'R{r["ok"]}'
+        for n, val in enumerate(FALSY):
+            if type(r) is type(val) and r == val:
+                return f'R{900 + n}'
         return f'R?{r!r}'
     if isinstance(e, dict):
         return f'E{e.get("code")}:{MSG_IDS.get(e.get("message"), "lib")}'
@@ -431,7 +455,7 @@ def oracle(cfg, case, obs):
         rec = obs['hlog'].get(i)
         fin[i] = rec[1] if rec else None
         if o[0] == 'x':
-            fin[i] = 0.0    # refused on arrival
+            fin[i] = float(case['arr'][i])    # refused on arrival
     # the first instant at which an item completed after which the text promises nothing more:
     # a reply-and-disconnect, or a behaviour outside the property's quantifier
     cuts = [(fin[i], i) for i, (k, o, d) in enumerate(items)
@@ -445,7 +469,7 @@ def oracle(cfg, case, obs):
 
     def live(i):
         """the text speaks about item i: it completed (or overran) before anything cut"""
-        t = fin[i] if fin[i] is not None else float(P)
+        t = fin[i] if fin[i] is not None else float(case['arr'][i] + P)
         if hold_t is not None and t >= hold_t:
             return False
         if cut_t is None or i == cutter:
@@ -529,6 +553,8 @@ def oracle(cfg, case, obs):
 
 # ---------------------------------------------------------------- case generation
 def concrete(kind, n):
+    if kind == 'vf':
+        return ('v', 900 + n % len(FALSY))
     return {'v': ('v', n), 'u': ('u', n), 'e': ('e', 40 + n, 1 + n % 3, 5 * (n % 3)),
             'r': ('r', 5 + n, 1 + n % 3, 10 * (n % 4)),
             'p': ('p', -32602, 2), 'o': ('o', n), 't': ('t',), 'dv': ('dv', n),
@@ -536,8 +562,8 @@ def concrete(kind, n):
             'd0': ('d0',), 'tt': ('tt',), 'b': ('b', n)}[kind]
 
 
-def mk(items, **cfg):
-    return {'cfg': norm_cfg(cfg), 'items': items}
+def mk(items, arr=None, **cfg):
+    return {'cfg': norm_cfg(cfg), 'items': items, 'arr': list(arr) if arr else [0] * len(items)}
 
 
 CONFIGS = [dict(), dict(transport='us'), dict(proto='1.0'), dict(proto='loose'),
@@ -567,6 +593,8 @@ def single_cases():
                     ns = list(range(N_OTHER))
                 if o == 'b':
                     ns = [0, 1]
+                if o in ('v', 'dv'):
+                    ns = [1] + [900 + j for j in range(len(FALSY))]
                 for n in ns:
                     items = [(kind, concrete(o, n), 0 if o == 'x' else 1)]
                     if config_ok(cfg, items):
@@ -653,30 +681,51 @@ def pause_cases(full):
 
 
 def simulate(case):
-    """the K-slot schedule (the generator's copy, used to avoid ties only): completion time of
-    every item in arrival order"""
-    c, items = case['cfg'], case['items']
+    """the K-slot schedule (the generator's copy, used to avoid ties only): completion instant
+    of every item"""
+    c, items, arr = case['cfg'], case['items'], case['arr']
     free = [0] * c['conc']
     out = {}
     for i in arrival_order(items):
         k, o, d = items[i]
-        a = free[0]
-        if a >= P:
-            out[i] = P
+        dl = arr[i] + P
+        a = max(free[0], arr[i])
+        if a >= dl:
+            out[i] = dl
             continue
         if o[0] == 'x':
             rel = a
         else:
             f = a + c['throttle'] + d
-            rel = P if (o[0] == 't' or f >= P) else f
+            rel = dl if (o[0] == 't' or f >= dl) else f
         out[i] = rel
         free = sorted(free[1:] + [rel])
     return out
 
 
 def no_ties(case):
-    times = [t for t in simulate(case).values() if t < P]
-    return len(times) == len(set(times))
+    """no two things at one instant, overruns of requests that arrived together apart"""
+    sim = simulate(case)
+    arr = case['arr']
+    done = [t for i, t in sim.items() if t < arr[i] + P]
+    over = {t for i, t in sim.items() if t >= arr[i] + P}
+    later = {a for a in arr if a > 0}
+    order = [arr[i] for i in arrival_order(case['items'])]
+    return (len(done) == len(set(done)) and not (set(done) & over) and not (later & (set(done) | over))
+            and order == sorted(order))
+
+
+def stagger_cases(full):
+    """requests that arrive one after the other: each has its own processing deadline"""
+    cases = []
+    outs = ['v', 'r', 'o', 't', 'dv', 'u'] if full else ['v', 'r', 't', 'dv']
+    for oa, ob, oc in itertools.product(outs, repeat=3):
+        for (da, db, dc), arr in (((22, 5, 9), (0, 10, 12)), ((7, 26, 3), (0, 2, 19)), ((28, 27, 4), (0, 1, 6))):
+            for conc in (1, 2, 20):
+                cases.append(mk([('R', concrete(oa, 1), da), ('R', concrete(ob, 2), db),
+                                 ('N' if oc == 'o' else 'R', concrete(oc, 3), dc)], arr=arr, conc=conc,
+                                transport='us' if conc == 2 else 'rs'))
+    return [c for c in cases if no_ties(c)]
 
 
 RANDOM_OUTS = ['v', 'v', 'v', 'u', 'e', 'r', 'r', 'p', 'o', 'o', 't', 'dv', 'de', 'du', 'xe', 'd0', 'tt', 'b']
@@ -696,10 +745,31 @@ def random_case(r):
         for i in range(n):
             k = r.choice(['R', 'R', 'R', 'N', 'B', 'B', 'M'])
             o = r.choice(pool)
-            items.append((k, concrete(o, i), r.randint(1, 29 if 'conc' in cfg or 'throttle' in cfg else 12)))
+            oc = concrete(o, i)
+            if o == 'v' and r.random() < 0.3:
+                oc = concrete('vf', r.randrange(len(FALSY)))
+            items.append((k, oc, r.randint(1, 29 if 'conc' in cfg or 'throttle' in cfg else 12)))
         if r.random() < 0.08 and 'conc' not in cfg and 'throttle' not in cfg:
             items.append(('R', ('x',), 0))
-        case = mk(items, **cfg)
+        arr = None
+        if r.random() < 0.3 and not cfg.get('throttle') and not any(o[0] == 'x' for _k, o, _d in items):
+            # one after the other (the members of the batch together)
+            t, arr, tb = 0, [], None
+            for k, _o, _d in items:
+                if k in ('B', 'M'):
+                    if tb is None:
+                        t += r.randint(0, 7)
+                        tb = t
+                    arr.append(tb)
+                else:
+                    t += r.randint(0, 7)
+                    arr.append(t)
+            if tb is not None:
+                # the batch arrives at the position of its first member: nothing arrives earlier
+                # after it in list order
+                first = next(i for i, it in enumerate(items) if it[0] in ('B', 'M'))
+                arr = [a if (i <= first or items[i][0] in ('B', 'M')) else max(a, tb) for i, a in enumerate(arr)]
+        case = mk(items, arr=arr, **cfg)
         if r.random() < 0.15 and not cfg.get('throttle') and not any(o[0] in OUTSIDE for _k, o, _d in items):
             t0 = r.randint(0, 28)
             case['cfg']['pause'] = [t0, t0 + r.randint(1, 14)]
@@ -766,7 +836,7 @@ def compare(case, obs, m):
         ft = rec[1] if rec else None
         if j in m['lost'] or items[j][1][0] == 'x':
             continue
-        if (t < P) != (ft is not None) or (ft is not None and abs(ft - t) > 1e-6):
+        if (t < case['arr'][j] + P) != (ft is not None) or (ft is not None and abs(ft - t) > 1e-6):
             return f'handler {j} reached its outcome at {ft}', f'completion time {t}'
     return None
 
@@ -824,7 +894,7 @@ def unexpected(ctx, res):
 def explore(ctx, res, deep):
     fams = [('singles', single_cases()), ('pairs', pair_cases()),
             ('queueing', queue_cases(deep)), ('throttle', throttle_cases(deep)),
-            ('paused_writer', pause_cases(deep))]
+            ('paused_writer', pause_cases(deep)), ('staggered', stagger_cases(deep))]
     for name, cases in fams:
         if unexpected(ctx, res) and name != 'singles':
             return
